@@ -1,7 +1,7 @@
 (* C02 - ground-state perturbation theory agrees with explicit
    determinant-space RSPT.  Property theorems only (partial: see below). *)
 From Coq Require Import List Arith ZArith.
-From ADC Require Import Core.Scalar Core.Index Models.PT Models.Fock Models.Wick Models.WickProofs.
+From ADC Require Import Core.Scalar Core.Index Models.PT Models.Fock Models.Wick Models.WickProofs Models.RSPTCheck.
 Import ListNotations.
 
 (* Order bookkeeping: the combinations of perturbation orders used for every
@@ -39,3 +39,30 @@ Theorem C02_matrix_elements_are_determinant_expectation_values_partial :
     sum_idx S M xs env (fun e => kmul S (T e) (zK S (gvev M (map (inst_group e) gs)))).
 Proof. exact wicks_value. Qed.
 Print Assumptions C02_matrix_elements_are_determinant_expectation_values_partial.
+
+(* The explicit determinant-space perturbation series that the derived
+   formulas are compared with are certified inside Coq on every run: the
+   harness hands the dense matrices of H0 and H1 (rows), the energies E_n and
+   the wavefunction coefficients (one polynomial per determinant) to
+   [rspt_ok]; acceptance means that, modulo the prime p and for every value x
+   of the perturbation parameter, the truncated series satisfy
+   (H0 + x H1) Psi(x) - E(x) Psi(x) = x^(N+1) * remainder  componentwise, with
+   intermediate normalisation <ref|Psi(x)> = 1 + O(x^(N+1)) - i.e. they are a
+   Rayleigh-Schroedinger solution through order N.  The linear solver of the
+   engine is thereby untrusted.  (Uniqueness of that solution needs the
+   non-singular resolvent and is not stated.) *)
+Theorem C02_rspt_certificate :
+  forall p N H0 H1 E Psi ref,
+  rspt_ok p N H0 H1 E Psi ref = true ->
+  (forall i r0 r1 q x,
+      nth_error H0 i = Some r0 -> nth_error H1 i = Some r1 ->
+      nth_error Psi i = Some q ->
+      exists rem,
+        (dotv r0 (values Psi x) + x * dotv r1 (values Psi x)
+         - peval E x * peval q x) mod p
+        = (x ^ Z.of_nat (S N) * rem) mod p)%Z
+  /\ (forall x, exists rem,
+        (peval (nth ref Psi []) x) mod p
+        = (1 + x ^ Z.of_nat (S N) * rem) mod p)%Z.
+Proof. exact rspt_ok_sound. Qed.
+Print Assumptions C02_rspt_certificate.
